@@ -134,6 +134,24 @@ Theorem C15_holds_crash : forall ops tr w, wrun ops winit tr = Some w ->
 Proof. exact holds_crash_model. Qed.
 Print Assumptions C15_holds_crash.
 
+(* the hypotheses of the two checker theorems as booleans computed for every evaluated case / kill run
+   (5th item of the driver's answer) *)
+Theorem C15_validb_valid : forall c, validb c = true -> valid c.
+Proof. exact validb_valid. Qed.
+Print Assumptions C15_validb_valid.
+
+Theorem C15_covered_cases : forall c, validb c = true -> holds c (run_model c) = [].
+Proof. intros c H. apply holds_model, validb_valid, H. Qed.
+Print Assumptions C15_covered_cases.
+
+Theorem C15_covered_kill_runs : forall ops a, validb_crash ops a = true ->
+  (exists tr w, wrun ops winit tr = Some w /\ w_acked w = a /\ w_done w = a) /\
+  holds_crash ops a (dump (fold_left apply_mop (firstn a ops) [])) = [].
+Proof.
+  intros ops a H. split; [apply wrun_acks; now apply Nat.leb_le|now apply covered_crash].
+Qed.
+Print Assumptions C15_covered_kill_runs.
+
 (* non-vacuity *)
 Example C15_nonvacuous_roundtrip :
   let v := PDict [(KStr [97], PList [PInt 1; PFloat [49]; PNone]); (KStr [], PDict [])] in
